@@ -1,6 +1,6 @@
 (** C04 - already-verified export data is never rewritten, damaged or lost across runs.  Statements only. *)
 From TB Require Import Base Decimal BencodeModel TorrentModel TorrentProofs PathModel FsModel SolverModel FinderModel RunModel
-                       SolverProofs RunProofs FsProofs FaultProofs PreludeProofs TableProofs FinderProofs SearchProofs PresentProofs Generated GeneratedObligations.
+                       SolverProofs RunProofs FsProofs FaultProofs PreludeProofs TableProofs FinderProofs SearchProofs PresentProofs Generated GeneratedObligations SystemModel SystemProofs GlueProofs RunExample.
 From Coq Require Import Permutation Sorted.
 Local Open Scope N_scope.
 
@@ -42,8 +42,18 @@ Proof. exact (fs_ops_preserve_verified truth decl f0 ops f1 j lo hi). Qed.
 Theorem C04_never_truncates : of_truncate writer_open = false /\ of_truncate resize_fix_open = false.
 Proof. split; reflexivity. Qed.
 
+(** WHOLE RUN: a byte range of an export image that held the torrent's bytes when scanning started
+    holds them in every reachable state - whatever the interleaving, the faults, the crash point -
+    hence after any sequence of runs: the set of verifying pieces only grows. *)
+Theorem C04_whole_run_verified_preserved H content export ts ix es ws f0 pool0 s e i lo hi :
+  run_setup H content export ts ix es ws f0 pool0 -> sreach {| s_fs := f0; s_pool := pool0 |} s ->
+  owner es (s_fs s) i e -> (hi <= N.to_nat (e_len e))%nat ->
+  holds (content e) (fs_content f0 i) lo hi -> holds (content e) (fs_content (s_fs s) i) lo hi.
+Proof. exact (whole_run_verified_preserved H content export ts ix es ws f0 pool0 s e i lo hi). Qed.
+
 Print Assumptions C04_export_file_is_first_candidate.
 Print Assumptions C04_verified_multi_piece_not_written.
 Print Assumptions C04_verified_single_piece_not_written.
 Print Assumptions C04_verified_ranges_preserved.
 Print Assumptions C04_never_truncates.
+Print Assumptions C04_whole_run_verified_preserved.
